@@ -95,9 +95,13 @@ class NanoAddrDecoder(IAddrDecoder):
                                     Ed25519Blake2bPublicKey.CompressedLength() + Blake2b40.DigestSize()
                                     + len(NanoAddrConst.PAYLOAD_PAD_DEC) - 1)
 
+        # Validate and remove padding
+        addr_dec_no_pad = AddrDecUtils.ValidateAndRemovePrefix(addr_dec_bytes,
+                                                               NanoAddrConst.PAYLOAD_PAD_DEC)
+
         # Get back checksum and public key bytes
         pub_key_bytes, checksum_bytes = AddrDecUtils.SplitPartsByChecksum(
-            addr_dec_bytes[len(NanoAddrConst.PAYLOAD_PAD_DEC):],
+            addr_dec_no_pad,
             Blake2b40.DigestSize()
         )
         # Validate checksum
